@@ -6,9 +6,10 @@ different blocks at `H` (`node_models_agree`, through `Props.C01.agreement`).
 
 Network hypotheses are explicit in the step relation `SysStep.deliver`:
 * `WellTimed`: the ticker fires only timeouts the node scheduled;
-* `Seen`: when a correct node handles an input at height `H`, every vote recorded in its vote tables AFTER that input is an
-  event of the history so far (a node records a vote only when it receives it; what it receives was sent: signatures are
-  unforgeable, and the adversary's votes are events too).
+* `Recv` (unforgeability): an ACCEPTABLE vote input (signature, size and address verdict `ok = true`) for height `H` naming
+  validator `j` is an event of the history so far — a correct signer's vote was emitted by its node, the adversary's votes are
+  events too.  That every vote in a correct node's tables is in the history (`Seen`) is then an invariant, DERIVED from the frame
+  theorem `Grow` (the model records a vote only when it is the input of the step).
 -/
 import LinkVerif.Props.C01NodeGlobal
 
@@ -241,7 +242,7 @@ theorem event_ok (powers : List Nat) (byz : Nat → Bool) {H n : Nat} {hist : Li
     {pre post : List Out} {o : Out} {e : Event} (hout : (stepCore s i).out = pre ++ o :: post) (hev : evOf H n o = some e) :
     eventOk (cfgOf powers byz) (hist ++ evsOf H n pre) e = true := by
   have hsp := Spec_unfold cx.good.1 (stepCore_Spec s i ht)
-  obtain ⟨_, _, hpw', htb, _, _, _, hch, hv, hc, _, hd3⟩ := hsp
+  obtain ⟨_, _, hpw', htb, _, _, _, hch, hv, hc, _, hd3, _⟩ := hsp
   have hmem : o ∈ (stepCore s i).out := by rw [hout]; simp
   have hok : ∀ q, VOK powers ((stepCore s i).pvs q) ∧ VOK powers ((stepCore s i).pcs q) := by
     intro q; have := htb cx.good.2 q; rw [hpw', hpw] at this; exact this
@@ -338,6 +339,69 @@ theorem event_ok (powers : List Nat) (byz : Nat → Bool) {H n : Nat} {hist : Li
 
 /-! ## the system: correct node models + an adversary -/
 
+/-- unforgeability: an acceptable vote input for height `H` is an event of the history -/
+def Recv (H : Nat) (hist : List Event) (i : In) : Prop :=
+  ∀ t r j v tot src, i = .vote t H r j v tot src true →
+    (t = tPrevote → Event.prevote j r (optV v) ∈ hist) ∧ (t = tPrecommit → Event.precommit j r (optV v) ∈ hist)
+
+/-- the votes in the tables of a node at height `H` are events of the history -/
+def SeenAt (H : Nat) (hist : List Event) (s : St) : Prop :=
+  s.height = H → Seen Event.prevote hist s.pvs ∧ Seen Event.precommit hist s.pcs
+
+theorem SeenAt_append {H : Nat} {hist : List Event} {s : St} (h : SeenAt H hist s) (x : List Event) : SeenAt H (hist ++ x) s :=
+  fun hh => ⟨Seen_append (h hh).1 x, Seen_append (h hh).2 x⟩
+
+theorem Seen_fresh (mk : Nat → Nat → Option Nat → Event) (p : List Event) (tbl : Nat → VSet)
+    (h : ∀ r, (tbl r).byBlock = []) : Seen mk p tbl := by
+  intro r v bv i hb _; rw [h r] at hb; simp [alookup] at hb
+
+theorem fresh_tables (x : St) (hx : x.rvs = [(0, RV.empty)]) : (∀ r, (x.pvs r).byBlock = []) ∧ (∀ r, (x.pcs r).byBlock = []) := by
+  have : ∀ q, x.rv q = RV.empty := by
+    intro q; simp only [St.rv, hx, alookup]; split <;> rfl
+  exact ⟨fun r => by simp [St.pvs, this, RV.empty, VSet.empty], fun r => by simp [St.pcs, this, RV.empty, VSet.empty]⟩
+
+/-- `Seen` after recording the input: from the invariant, the frame theorem `Grow` and unforgeability -/
+theorem seen_stepCore {H : Nat} {hist : List Event} {s : St} (i : In) (hw : W s) (ht : WellTimed s i)
+    (hs : SeenAt H hist s) (hrecv : Recv H hist i) : SeenAt H hist (stepCore s i) := by
+  obtain ⟨_, hh, _, _, _, _, _, _, _, _, _, _, hgrow⟩ := Spec_unfold hw (stepCore_Spec s i ht)
+  intro hH
+  have hsH : s.height = H := by rw [← hh]; exact hH
+  obtain ⟨h1, h2⟩ := hs hsH
+  constructor
+  · intro r v bv j hb hj
+    rcases hgrow tPrevote r v bv j (Or.inl rfl) (by simpa [vsOf] using hb) hj with ⟨b0, h0, hm⟩ | ⟨tot, src, e⟩
+    · exact h1 r v b0 j (by simpa [vsOf] using h0) hm
+    · rw [hsH] at e; exact (hrecv _ _ _ _ _ _ e).1 rfl
+  · intro r v bv j hb hj
+    rcases hgrow tPrecommit r v bv j (Or.inr rfl) (by simpa [vsOf, tPrecommit, tPrevote] using hb) hj with ⟨b0, h0, hm⟩ | ⟨tot, src, e⟩
+    · exact h2 r v b0 j (by simpa [vsOf, tPrecommit, tPrevote] using h0) hm
+    · rw [hsH] at e; exact (hrecv _ _ _ _ _ _ e).2 rfl
+
+theorem step_cases2 (s : St) (i : In) :
+    step s i = stepCore s i ∨ step s i = die (stepCore s i) ∨ (step s i).rvs = [(0, RV.empty)] := by
+  unfold step
+  simp only
+  split
+  · unfold newHeight
+    split
+    · exact Or.inr (Or.inl rfl)
+    · right; right; simp [emit]
+  · exact Or.inl rfl
+
+theorem seen_step {H : Nat} {hist : List Event} {s : St} (i : In) (hw : W s) (ht : WellTimed s i)
+    (hs : SeenAt H hist s) (hrecv : Recv H hist i) : SeenAt H hist (step s i) := by
+  have hc := seen_stepCore i hw ht hs hrecv
+  rcases step_cases2 s i with e | e | e
+  · rw [e]; exact hc
+  · rw [e]; intro hh
+    have := hc (by simpa [die] using hh)
+    have hp : (die (stepCore s i)).pvs = (stepCore s i).pvs := by funext q; rfl
+    have hq : (die (stepCore s i)).pcs = (stepCore s i).pcs := by funext q; rfl
+    rw [hp, hq]; exact this
+  · intro _
+    obtain ⟨f1, f2⟩ := fresh_tables _ e
+    exact ⟨Seen_fresh _ _ _ f1, Seen_fresh _ _ _ f2⟩
+
 structure Sys where
   /-- the node model of validator `n` (only those of correct validators matter) -/
   st : Nat → St
@@ -352,18 +416,17 @@ def upd {α : Type} (f : Nat → α) (n : Nat) (a : α) : Nat → α := fun m =>
 inductive SysStep (powers : List Nat) (byz : Nat → Bool) (H : Nat) : Sys → Sys → Prop
   /-- the adversary adds any event of a Byzantine validator -/
   | adversary (σ : Sys) (e : Event) (hb : byz (actor e) = true) : SysStep powers byz H σ { σ with hist := σ.hist ++ [e] }
-  /-- a correct validator's node handles one input.  Network hypotheses: the timeout is one the node scheduled (`WellTimed`), and
-  every vote in the node's tables after recording the input is an event of the history (`Seen`) -/
-  | deliver (σ : Sys) (n : Nat) (i : In) (hn : byz n = false) (ht : WellTimed (σ.st n) i)
-      (hseen : (σ.st n).height = H → Seen Event.prevote σ.hist (stepCore (σ.st n) i).pvs ∧
-                                      Seen Event.precommit σ.hist (stepCore (σ.st n) i).pcs) :
+  /-- a correct validator's node handles one input.  Network hypotheses: the timeout is one the node scheduled (`WellTimed`), and an
+  acceptable vote for height `H` is an event of the history (`Recv`) -/
+  | deliver (σ : Sys) (n : Nat) (i : In) (hn : byz n = false) (ht : WellTimed (σ.st n) i) (hrecv : Recv H σ.hist i) :
       SysStep powers byz H σ { st := upd σ.st n (step (σ.st n) i), log := upd σ.log n (σ.log n ++ (step (σ.st n) i).out),
                                hist := σ.hist ++ evsOf H n (stepCore (σ.st n) i).out }
 
 /-- the invariant: the merged history is disciplined, and for every correct validator the bookkeeping of `NodeCtx` holds -/
 def SysInv (powers : List Nat) (byz : Nat → Bool) (H : Nat) (σ : Sys) : Prop :=
   disciplined (cfgOf powers byz) σ.hist = true ∧
-  ∀ n, byz n = false → NodeCtx H n σ.hist (σ.st n) (σ.log n) ∧ (σ.st n).powers = powers ∧ (∀ e ∈ evsOf H n (σ.log n), e ∈ σ.hist)
+  ∀ n, byz n = false → NodeCtx H n σ.hist (σ.st n) (σ.log n) ∧ (σ.st n).powers = powers ∧ (∀ e ∈ evsOf H n (σ.log n), e ∈ σ.hist) ∧
+    SeenAt H σ.hist (σ.st n)
 
 theorem eventOk_byz (c : Cfg) (p : List Event) (e : Event) (hb : c.byz (actor e) = true) : eventOk c p e = true := by
   cases e <;> simp [eventOk, actor] at hb ⊢ <;> simp [hb]
@@ -399,14 +462,19 @@ theorem sys_step_inv {powers : List Nat} {byz : Nat → Bool} {H : Nat} {σ σ' 
         simp only [List.cons_append, List.cons.injEq] at hs
         cases pre' <;> simp at hs
     · intro n hn
-      obtain ⟨cx, hp, hin⟩ := hnodes n hn
-      refine ⟨⟨cx.good, cx.below, cx.once, cx.held, ?_⟩, hp, fun e' he' => List.mem_append_left _ (hin e' he')⟩
+      obtain ⟨cx, hp, hin, hse⟩ := hnodes n hn
+      refine ⟨⟨cx.good, cx.below, cx.once, cx.held, ?_⟩, hp, fun e' he' => List.mem_append_left _ (hin e' he'), SeenAt_append hse _⟩
       intro e' he' ha
       rcases List.mem_append.1 he' with he' | he'
       · exact cx.own e' he' ha
       · simp at he'; subst he'; rw [ha, hn] at hb; cases hb
-  | deliver n i hn ht hseen =>
-    obtain ⟨cx, hp, hin⟩ := hnodes n hn
+  | deliver n i hn ht hrecv =>
+    obtain ⟨cx, hp, hin, hse⟩ := hnodes n hn
+    have hseen : (σ.st n).height = H → Seen Event.prevote σ.hist (stepCore (σ.st n) i).pvs ∧
+        Seen Event.precommit σ.hist (stepCore (σ.st n) i).pcs := by
+      intro hH
+      have := seen_stepCore i cx.good.1 ht hse hrecv
+      exact this (by rw [(Spec_unfold cx.good.1 (stepCore_Spec (σ.st n) i ht)).2.1]; exact hH)
     refine ⟨?_, ?_⟩
     · apply disciplined_extend _ _ _ hd
       intro preE e postE hs
@@ -423,7 +491,7 @@ theorem sys_step_inv {powers : List Nat} {byz : Nat → Bool} {H : Nat} {σ σ' 
         have hhe := held_step (σ.st m) i (σ.log m) cx.good.1 ht cx.below cx.held
         have hpw : (step (σ.st m) i).powers = powers := by
           rw [step_powers, (Spec_unfold cx.good.1 (stepCore_Spec (σ.st m) i ht)).2.2.1, hp]
-        refine ⟨⟨step_Good _ i cx.good ht, ho2, ho1, hhe, ?_⟩, hpw, ?_⟩
+        refine ⟨⟨step_Good _ i cx.good ht, ho2, ho1, hhe, ?_⟩, hpw, ?_, SeenAt_append (seen_step i cx.good.1 ht hse hrecv) _⟩
         · intro e' he' ha
           rw [evsOf_append, evsOf_step]
           rcases List.mem_append.1 he' with he' | he'
@@ -434,11 +502,11 @@ theorem sys_step_inv {powers : List Nat} {byz : Nat → Bool} {H : Nat} {σ σ' 
           rcases List.mem_append.1 he' with he' | he'
           · exact List.mem_append_left _ (hin e' he')
           · exact List.mem_append_right _ he'
-      · obtain ⟨cxm, hpm, hinm⟩ := hnodes m hm
+      · obtain ⟨cxm, hpm, hinm, hsem⟩ := hnodes m hm
         have hst : upd σ.st n (step (σ.st n) i) m = σ.st m := by simp [upd, hmn]
         have hlg : upd σ.log n (σ.log n ++ (step (σ.st n) i).out) m = σ.log m := by simp [upd, hmn]
         simp only [hst, hlg]
-        refine ⟨⟨cxm.good, cxm.below, cxm.once, cxm.held, ?_⟩, hpm, fun e' he' => List.mem_append_left _ (hinm e' he')⟩
+        refine ⟨⟨cxm.good, cxm.below, cxm.once, cxm.held, ?_⟩, hpm, fun e' he' => List.mem_append_left _ (hinm e' he'), SeenAt_append hsem _⟩
         intro e' he' ha
         rcases List.mem_append.1 he' with he' | he'
         · exact cxm.own e' he' ha
@@ -451,17 +519,18 @@ inductive Reach (powers : List Nat) (byz : Nat → Bool) (H : Nat) : Sys → Sys
   | refl (σ : Sys) : Reach powers byz H σ σ
   | step {σ σ' σ'' : Sys} : Reach powers byz H σ σ' → SysStep powers byz H σ' σ'' → Reach powers byz H σ σ''
 
-/-- initial systems: empty history; every correct node is in a well-formed state with consistent (e.g. empty) vote tables, has the
+/-- initial systems: empty history; every correct node is in a well-formed state with EMPTY vote tables (as `initSt`), has the
 system's power table, and has not output anything -/
 def SysInit (powers : List Nat) (byz : Nat → Bool) (σ : Sys) : Prop :=
-  σ.hist = [] ∧ ∀ n, byz n = false → Good (σ.st n) ∧ (σ.st n).powers = powers ∧ σ.log n = []
+  σ.hist = [] ∧ ∀ n, byz n = false → Good (σ.st n) ∧ (σ.st n).powers = powers ∧ σ.log n = [] ∧ (σ.st n).rvs = [(0, RV.empty)]
 
 theorem init_inv {powers : List Nat} {byz : Nat → Bool} (H : Nat) {σ : Sys} (h : SysInit powers byz σ) : SysInv powers byz H σ := by
   obtain ⟨hh, hn⟩ := h
   refine ⟨by rw [hh]; rfl, ?_⟩
   intro n hb
-  obtain ⟨hg, hp, hl⟩ := hn n hb
-  refine ⟨⟨hg, ?_, ?_, ?_, ?_⟩, hp, ?_⟩
+  obtain ⟨hg, hp, hl, hr⟩ := hn n hb
+  obtain ⟨f1, f2⟩ := fresh_tables _ hr
+  refine ⟨⟨hg, ?_, ?_, ?_, ?_⟩, hp, ?_, fun _ => ⟨Seen_fresh _ _ _ f1, Seen_fresh _ _ _ f2⟩⟩
   · rw [hl]; intro _ _ _ _ hm; cases hm
   · rw [hl]; intro _ _ _ _ _ hm; cases hm
   · rw [hl]; intro _ _ _ hm; cases hm
@@ -485,8 +554,77 @@ theorem node_models_agree {powers : List Nat} {byz : Nat → Bool} {H : Nat} {σ
     (hn : byz n = false) (hn' : byz n' = false)
     (h1 : Out.commit H r b ∈ σ.log n) (h2 : Out.commit H r' b' ∈ σ.log n') : b = b' := by
   obtain ⟨hd, hnodes⟩ := reach_inv hr (init_inv H h0)
-  have m1 : Event.decide n r b ∈ σ.hist := (hnodes n hn).2.2 _ (List.mem_filterMap.2 ⟨_, h1, by simp [evOf]⟩)
-  have m2 : Event.decide n' r' b' ∈ σ.hist := (hnodes n' hn').2.2 _ (List.mem_filterMap.2 ⟨_, h2, by simp [evOf]⟩)
+  have m1 : Event.decide n r b ∈ σ.hist := (hnodes n hn).2.2.1 _ (List.mem_filterMap.2 ⟨_, h1, by simp [evOf]⟩)
+  have m2 : Event.decide n' r' b' ∈ σ.hist := (hnodes n' hn').2.2.1 _ (List.mem_filterMap.2 ⟨_, h2, by simp [evOf]⟩)
   exact Props.C01.agreement (cfgOf powers byz) σ.hist hd hb n n' r r' b b' hn hn' m1 m2
+
+/-! ## non-vacuity of the global theorem: a concrete system run in which two correct node models commit -/
+
+def recvB (H : Nat) (hist : List Event) : In → Bool
+  | .vote t h r j v _ _ ok =>
+    if h = H ∧ ok = true then
+      (if t = tPrevote then hist.contains (Event.prevote j r (optV v)) else true) &&
+      (if t = tPrecommit then hist.contains (Event.precommit j r (optV v)) else true)
+    else true
+  | _ => true
+
+theorem recv_of_B {H : Nat} {hist : List Event} {i : In} (h : recvB H hist i = true) : Recv H hist i := by
+  intro t r j v tot src e
+  subst e
+  simp only [recvB, and_self, if_true, Bool.and_eq_true] at h
+  constructor
+  · intro ht; subst ht; simpa using h.1
+  · intro ht; subst ht; simpa [tPrecommit, tPrevote] using h.2
+
+/-- the system after a list of deliveries `(validator, input)` -/
+def runSys (H : Nat) : Sys → List (Nat × In) → Sys
+  | σ, [] => σ
+  | σ, (n, i) :: rest =>
+    runSys H { st := upd σ.st n (step (σ.st n) i), log := upd σ.log n (σ.log n ++ (step (σ.st n) i).out),
+               hist := σ.hist ++ evsOf H n (stepCore (σ.st n) i).out } rest
+
+/-- the premises of every delivery, as a computation -/
+def okSys (byz : Nat → Bool) (H : Nat) : Sys → List (Nat × In) → Bool
+  | _, [] => true
+  | σ, (n, i) :: rest =>
+    !byz n && wellTimedB (σ.st n) i && recvB H σ.hist i &&
+    okSys byz H { st := upd σ.st n (step (σ.st n) i), log := upd σ.log n (σ.log n ++ (step (σ.st n) i).out),
+                  hist := σ.hist ++ evsOf H n (stepCore (σ.st n) i).out } rest
+
+theorem reach_runSys (powers : List Nat) (byz : Nat → Bool) (H : Nat) : ∀ (l : List (Nat × In)) (σ0 σ : Sys),
+    Reach powers byz H σ0 σ → okSys byz H σ l = true → Reach powers byz H σ0 (runSys H σ l)
+  | [], _, _, hr, _ => hr
+  | (n, i) :: rest, σ0, σ, hr, hok => by
+    simp only [okSys, Bool.and_eq_true, Bool.not_eq_true'] at hok
+    obtain ⟨⟨⟨h1, h2⟩, h3⟩, h4⟩ := hok
+    exact reach_runSys powers byz H rest σ0 _
+      (Reach.step hr (SysStep.deliver σ n i h1 (wellTimed_of_B h2) (recv_of_B h3))) h4
+
+/-- validators 0, 1, 2 correct, 3 Byzantine (and silent); every correct node starts height 1 as `initSt` -/
+def exByz : Nat → Bool := fun n => n == 3
+def exSys0 : Sys := { st := fun n => initSt n [1, 1, 1, 1] 673 1 exVals, log := fun _ => [], hist := [] }
+
+/-- every correct node: round-0 timeout, proposal of validator 1 and its block (→ own prevote); then the three prevotes reach everybody
+(→ own precommits); then the three precommits (→ commits) -/
+def exSched : List (Nat × In) :=
+  [0, 1, 2].flatMap (fun n => [(n, .timeout 1 0 sNewHeight), (n, .proposal 1 0 (-1) 7 1 1 32), (n, .part 1 0 7 0 true true true)]) ++
+  [0, 1, 2].flatMap (fun n => [0, 1, 2].map (fun j => (n, In.vote tPrevote 1 0 j 7 1 j true))) ++
+  [0, 1, 2].flatMap (fun n => [0, 1, 2].map (fun j => (n, In.vote tPrecommit 1 0 j 7 1 j true)))
+
+theorem exSys_init : SysInit [1, 1, 1, 1] exByz exSys0 :=
+  ⟨rfl, fun _ _ => ⟨initSt_Good _ _ _ _ _, rfl, rfl, rfl⟩⟩
+
+theorem exSys_ok : okSys exByz 1 exSys0 exSched = true := by decide
+
+theorem exSys_reach : Reach [1, 1, 1, 1] exByz 1 exSys0 (runSys 1 exSys0 exSched) :=
+  reach_runSys _ _ _ _ _ _ (Reach.refl _) exSys_ok
+
+theorem exSys_commits : Out.commit 1 0 7 ∈ (runSys 1 exSys0 exSched).log 0 ∧ Out.commit 1 0 7 ∈ (runSys 1 exSys0 exSched).log 1 ∧
+    (runSys 1 exSys0 exSched).hist.length = 9 := by decide
+
+/-- non-vacuity of `node_models_agree`: its hypotheses hold of a system run in which two correct node models do commit -/
+example : ∃ σ0 σ, SysInit [1, 1, 1, 1] exByz σ0 ∧ Reach [1, 1, 1, 1] exByz 1 σ0 σ ∧ byzBound (cfgOf [1, 1, 1, 1] exByz) ∧
+    Out.commit 1 0 7 ∈ σ.log 0 ∧ Out.commit 1 0 7 ∈ σ.log 1 :=
+  ⟨exSys0, _, exSys_init, exSys_reach, by decide, exSys_commits.1, exSys_commits.2.1⟩
 
 end Props.C01Node
